@@ -565,7 +565,12 @@ impl Pr {
         match self.only {
             None => self.r.chance(num, den),
             // (term classes are also tried inside invented `;` `,` lists)
-            Some(g) => g == f || (f == "invented_predicate_object_lists" && g.starts_with("exotic:")),
+            Some(g) => {
+                g == f
+                    || (f == "invented_predicate_object_lists" && g.starts_with("exotic:"))
+                    // `,` and a trailing `;` need a statement with several predicate-object pairs
+                    || ((g == "comma_for_same_predicate" || g == "trailing_semicolon") && (f == "abbreviate_same_subject" || f == "invented_predicate_object_lists"))
+            }
         }
     }
     fn push(&mut self, s: &str, k: TK) {
@@ -1639,10 +1644,16 @@ fn judge_faithful(ctx: &mut Ctx, pool: &mut Pool, k: u64, p: &Printed, laid: &La
                 let collapsed = expected_collapsed.map(|c| diff(&c, &got, "").is_none()).unwrap_or(false);
                 if collapsed {
                     ctx.count("trees_that_lost_the_scope_of_a_single_element_group", 1);
-                    ctx.violation(json!({"kind": "nesting_lost", "cause": "group_holding_only_a_filter_or_bind_is_merged_into_the_enclosing_group"}), witness(json!({"first_difference_at": path, "expected": e, "parsed": g})));
+                    // the first difference is `join` expected where the lone element itself was parsed
+                    let element = g.as_array().and_then(|a| a.first()).and_then(|x| x.as_str()).unwrap_or("unknown").to_string();
+                    ctx.count(&format!("trees_that_lost_the_scope_of_a_single_element_group.{}", element), 1);
+                    ctx.violation(json!({"kind": "nesting_lost", "cause": "group_of_one_element_is_merged_into_the_enclosing_group", "element": element}), witness(json!({"first_difference_at": path, "expected": e, "parsed": g})));
                 } else {
                     let cause = attribute(ctx, pool, k, false);
-                    ctx.violation(json!({"kind": "tree_differs", "at": path, "cause": cause}), witness(json!({"first_difference_at": path, "expected": e, "parsed": clip(&g.to_string(), 600)})));
+                    // the innermost two steps of the path: stable across entry points and nesting
+                    let segs: Vec<&str> = path.split('.').filter(|x| !x.is_empty()).collect();
+                    let at = segs[segs.len().saturating_sub(2)..].join(".");
+                    ctx.violation(json!({"kind": "tree_differs", "at": at, "cause": cause}), witness(json!({"first_difference_at": path, "expected": e, "parsed": clip(&g.to_string(), 600)})));
                 }
             } else {
                 ctx.count("trees_equal_to_the_normal_form", 1);
@@ -1703,9 +1714,9 @@ fn attribute(ctx: &mut Ctx, pool: &mut Pool, k: u64, rejected: bool) -> String {
     c
 }
 
-fn attribute_uncached(ctx: &mut Ctx, pool: &mut Pool, k: u64, rejected: bool) -> String {
+fn attribute_uncached(ctx: &mut Ctx, pool: &mut Pool, k: u64, _rejected: bool) -> String {
     let plain = Style { tight: 0, comments: 0, case: 0 };
-    let mut fails = |ctx: &mut Ctx, pool: &mut Pool, p: &Printed, st: &Style| -> bool {
+    let fails = |ctx: &mut Ctx, pool: &mut Pool, p: &Printed, st: &Style| -> bool {
         let mut lr = Rng::new(7);
         let laid = layout(&p.toks, p.nspans, &mut lr, st);
         let Some(exp) = p.alias.as_ref() else { return false };
@@ -1713,8 +1724,10 @@ fn attribute_uncached(ctx: &mut Ctx, pool: &mut Pool, k: u64, rejected: bool) ->
         ctx.add_evals(1);
         ctx.count("attribution_parses", 1);
         match pool.ask("combined_alias", true, &laid.text) {
-            Reply::Ok { dump, .. } => !rejected && diff(&exp, &unwrap_whole_pattern_joins(&dump.unwrap_or(Value::Null), false), "").is_some(),
-            Reply::Err { .. } => rejected,
+            // any failure of the single-feature printing counts (a swallowed token may turn a
+            // wrong tree into a rejection and vice versa)
+            Reply::Ok { dump, .. } => diff(&exp, &unwrap_whole_pattern_joins(&dump.unwrap_or(Value::Null), false), "").is_some(),
+            Reply::Err { .. } => true,
             _ => false,
         }
     };
